@@ -394,7 +394,7 @@ def toposhuffle(rng, ops, keep_first=2, strength=1.0):
             d.add(made_by.get('lf:' + op['lf']))
         for h in values.refs_in(op.get('kwargs')) + values.refs_in(op.get('nf')) + values.refs_in(op.get('v')):
             d.add(made_by.get(h))
-        if op.get('op') in ('set', 'set_prop'):
+        if op.get('op') in ('set', 'set_prop', 'set_attrs'):
             d.add(made_by.get(op['h']))
             if op['h'] in last_set:
                 d.add(last_set[op['h']])
